@@ -60,4 +60,48 @@ def extra(tier, seed, workers, only):
     from . import backends
     bst, binfo = backends.run_for(tier, seed, workers, None, purpose="early")
     st.merge_from(bst)
+    st.merge_from(engine.explore_many([make_spec("mc.props.c01", "SharedURLHarness", variant=v, ct=ct) for v in ("sync", "async") for ct in ("h11", "h2pk")],
+                                      workers=workers, bound=None, seed=seed, max_violations=20))
     return st, {"sequential_fault_histories": len(specs), "executions": st.evaluations, "real_backends": binfo}
+
+
+class SharedURLHarness:
+    """Three requests built from ONE httpcore.URL object, the middle one with the `target` extension: each gets the answer to its own request."""
+    horizon = 200
+
+    def __init__(self, variant, ct="h11"):
+        self.variant, self.ct = variant, ct
+
+    def run(self, chooser):
+        import httpcore
+        from .. import scen
+        from ..engine import Execution, Violation
+        from ..seqworld import SeqWorld, exc_class
+        topo = scen.Topology(scen.CONN_TYPES[self.ct])
+        w = SeqWorld(chooser, topo.router, variant=self.variant)
+        w.env.fp = None
+        pool = scen.make_pool(self.ct, w.backend, self.variant)
+        url = httpcore.URL(scen.url_for(self.ct, token="mine"))
+        plan = [({}, b"<mine>"), ({"target": b"/t/other"}, b"<other>"), ({}, b"<mine>")]
+        got = []
+        if self.variant == "sync":
+            def prog():
+                for ext, _ in plan:
+                    r = pool.request("GET", url, extensions=dict(ext))
+                    got.append((r.status, r.content))
+                pool.close()
+            res = w.run(sync_fn=prog)
+        else:
+            async def aprog():
+                for ext, _ in plan:
+                    r = await pool.request("GET", url, extensions=dict(ext))
+                    got.append((r.status, r.content))
+                await pool.aclose()
+            res = w.run(async_fn=aprog)
+        ex = Execution(outcome=str(got), nontrivial=True)
+        want = [(200, b) for _, b in plan]
+        if res[0] != "ok" or got != want:
+            ex.violations.append(Violation("C01.shared-url-object", f"three requests from one URL object (the second with target=/t/other) were answered {got} ({res[0]}"
+                                           f"{': ' + exc_class(res[1]) if res[0] == 'exc' else ''}), expected {want} | ct={self.ct} variant={self.variant}",
+                                           {"harness": "shared-url", "kind": "shared-url-object", "ct": self.ct}))
+        return ex
